@@ -69,4 +69,10 @@ CLAIMED = {
               "remove/rename/RemoveAll followed by mutations through a previously opened handle with Stat(old)/listing checked after each. Sampled exploration."),
         note="methods a handle never had (e.g. Write on a read-only keyvalue handle) are exempt from the ErrClosed requirement (the helper answers ErrNotImplemented); sibling contents are not compared over a plain Store (snapshot copies by design)",
     ),
+    "C19": dict(
+        technique="model-based (state-machine) property testing with rapid against a []byte model with alias groups; the same machine under GOOS=js/wasm (node) for the typed-array blob; rapid.MakeFuzz native fuzzing in the thorough tier",
+        text=("Generated sequences of View/Slice/Set/Grow/Truncate/Len/Bytes (direct and through the blob.* helpers) over a pool of aliasing blobs, with arguments across and beyond the valid range; after every step every live blob is compared "
+              "with a Go-slice model in which views alias and slices/Bytes are copies; out-of-range calls must not panic or modify anything; every call runs under a watchdog (self-aliasing Set). Runs natively (blob.Bytes) and in node (blob.Bytes, idbblob.Blob). Sampled exploration."),
+        note="aliasing across any Grow/Truncate call is not asserted; Set whose source overflows the destination is not generated (implementations legitimately differ); out-of-range errors are required only from the byte-slice implementation",
+    ),
 }
